@@ -594,9 +594,11 @@ fn scale(w: &mut Worker) {
 /// signs, brackets, quotes, words that read as false) it is what get_last_error returns and what a
 /// fatal error carries, at top level, inside a function and behind an alias.
 fn message_texts(w: &mut Worker) {
-    const TEXTS: [&str; 36] = [
+    const TEXTS: [&str; 44] = [
         "{}", "a {} b", "{} {}", "{0}", "{name}", "{{}}", "{:?}", "%s", "%d%%", "100%", "%", "a=b", "x: y", "[1]", "<a>", "'q'", "it's", "say \"hi\"",
         "back\\slash", "tab\there", "line\nbreak", " lead", "trail ", "é😀", "$", "$x", "#", "a # b", "false", "0", "no", "true", "Error", "-", "--flag", "a  b",
+        // characters that do not show, at the ends and inside
+        "\u{feff}bom first", "bom last\u{feff}", "zero\u{200b}width", "\u{a0}nbsp\u{a0}", "\u{202e}rtl", "nul\u{1}ctl", "e\u{301}", "\u{85}nel",
     ];
     for raw in TEXTS {
         // the table is written with Rust escapes for tab / line break / backslash
